@@ -124,4 +124,14 @@ func (SymbolTable).InsertDecl
 func IsGlobalScope
   trusted
   modifies nothing
+
+// explicit conversions ("als") between the primitive classes, shared by the type checker and the code generator:
+// may a value of class s be converted to class k? (1 Zahl, 2 Kommazahl, 3 Byte, 4 Wahrheitswert, 5 Buchstabe, 6 Text)
+spec castAdmissible(s int, k int) bool :=
+  k == 1 ? (1 <= s && s <= 6) :
+  (k == 2 ? (s == 1 || s == 2 || s == 3 || s == 6) :
+  (k == 3 ? (s == 1 || s == 2 || s == 3) :
+  (k == 4 ? (s == 1 || s == 3 || s == 4) :
+  (k == 5 ? (s == 1 || s == 3 || s == 5) :
+  (k == 6 ? (1 <= s && s <= 6) : false)))))
 @*/
